@@ -59,6 +59,9 @@ type HSpec struct {
 	// tee branch
 	Branch    []HSpec `json:"branch,omitempty"`
 	StartMark string  `json:"start_mark,omitempty"`
+	// PrefixOnly: a clean EOF before the end of the stream is legitimate (a tee branch whose
+	// main connection may be closed before it was read to the end)
+	PrefixOnly bool `json:"prefix_only,omitempty"`
 }
 
 type RSpec struct {
@@ -139,7 +142,7 @@ func (b *Builder) Handler(hs *HSpec, sig string) layer4.NextHandler {
 	case "ppmark":
 		return &worlds.Consume{E: b.E, Name: hs.Name, K: 0, Tag: b.Tag, Sig: sig, StripPre: true}
 	case "recorder":
-		r := &worlds.Recorder{E: b.E, Name: hs.Name, Tag: b.Tag, Sig: sig, Late: hs.Late, MaxBuf: hs.MaxBuf, OnDone: b.OnDone, Branch: hs.StartMark != "", StartMark: hs.StartMark}
+		r := &worlds.Recorder{E: b.E, Name: hs.Name, Tag: b.Tag, Sig: sig, Late: hs.Late, MaxBuf: hs.MaxBuf, OnDone: b.OnDone, Branch: hs.StartMark != "", StartMark: hs.StartMark, PrefixOnly: hs.PrefixOnly}
 		b.Recs = append(b.Recs, r)
 		return r
 	case "echo":
